@@ -3194,9 +3194,10 @@ func lemmaForwardSession(raw *rawEnvelope) (e *Session, e3 *Session, accepted bo
 //@ func (*ctxConn).Write :: (c, b) (n, err)
 //@   props C04 C12
 //@   requires c != nil && c.conn != nil && c.writeCtx != nil
-//@   modifies c.conn.wcount
+//@   modifies c.conn.wcount, c.conn.warmed
 //@   loop 0 invariant 0 <= n && n <= len(b) && c.conn.wcount == old(c.conn.wcount) + n
 //@   oncall [C04,C12] net.Conn.Write : suffixof(a_b, b, c.conn.wcount - old(c.conn.wcount))
+//@   oncall [C04,C12] net.Conn.Write : c.conn.warmed  ## every attempt runs under a deadline set for this attempt: a retry under the deadline that has just expired fails at once, for ever
 //@   ensures [C04,C12] @accounting c.conn.wcount == old(c.conn.wcount) + n
 //@   ensures [C04,C12] @shortimplieserr n < len(b) ==> err != nil
 //@   ensures 0 <= n && n <= len(b)
@@ -3204,8 +3205,9 @@ func lemmaForwardSession(raw *rawEnvelope) (e *Session, e3 *Session, accepted bo
 //@ func (*ctxConn).Read :: (c, b) (n, err)
 //@   props C01 C04 C12
 //@   requires c != nil && c.conn != nil && c.readCtx != nil
-//@   modifies c.conn.rcount
+//@   modifies c.conn.rcount, c.conn.rarmed
 //@   loop 0 invariant c.conn.rcount == old(c.conn.rcount)
+//@   oncall [C01,C04,C12] net.Conn.Read : c.conn.rarmed  ## every attempt runs under a deadline set for this attempt: a retry under the deadline that has just expired fails at once, for ever, and what the peer sends later is never read
 //@   ensures [C01,C04,C12] @accounting c.conn.rcount == old(c.conn.rcount) + n
 //@   ensures 0 <= n && n <= len(b)
 
